@@ -154,9 +154,10 @@ RULE = ('real TaurexChemistry with 1-4 fill gases (random ratios 1e-6..2) and 0-
         'cases are re-initialised on the SAME chemistry object after 1-3 parameters were rewritten through the '
         'fitting-parameter setters; constructor variants (ratio as float, fill gas as str); session stream: 2-3 scratch '
         'directories of cross-section files, histories of 5-12 cache operations (set_opacity_path switches, files added / '
-        'removed, in-memory tables registered, OpacityCache()[m] loads, clear_cache, find_list_of_molecules) with a chemistry '
+        'removed, in-memory tables registered, OpacityCache()[m] loads, clear_cache, find_list_of_molecules, force_active with '
+        'empty and non-empty lists — every third session starts with a non-empty forced list) with a chemistry '
         'constructed after every second or third operation, each judged against the files of the current path + the tables in '
-        'memory and against Chemistry.CacheState (op c10.session). distinct '
+        'memory + the list last handed to force_active and against Chemistry.CacheState (op c10.session). distinct '
         'non-trivial = distinct (nfill, sorted trace kinds, nlayers, outcome, region)')
 ASSUMPTIONS = [
     'np.interp / np.linspace / movingaverage as modelled in NpInterp.lean (validated numerically by the C12 run and '
@@ -169,8 +170,9 @@ ASSUMPTIONS = [
     'decreasing, no duplicate molecule, smoothing window a percentage in [0, 100]',
     'rounding: model on Float vs numpy doubles compared to 1e-10 relative; sums to one within 1e-12',
     'session stream: cross-section files are PickleOpacity files `<molecule>.R100.pickle` (the molecule is read off the file '
-    'name; HDF5 / ExoTransmit discovery is not exercised); k-tables and force_active are left out; a file removed from a '
-    'directory stays available once its table is in memory',
+    'name; HDF5 / ExoTransmit discovery is not exercised); k-tables are left out; a file removed from a '
+    'directory stays available once its table is in memory; a molecule handed to OpacityCache().force_active counts as '
+    'having opacity data (an external radiative code supplies it) until the next force_active call replaces the list',
     'source tie (Props/C10Src.lean): gas.mixProfile after gas.initialize_profile(...) is a profile of nlayers entries '
     '(parameter gasMix); x + 0 = x for the `mixratio_remainder += np.zeros(nlayers)` step; initialize_chemistry is tied '
     'up to the row list mix_profile (np.vstack and the base-class call that runs compute_mu_profile come after); '
@@ -943,9 +945,11 @@ def isolation(ctx):
 # constructed (cross-section files found there), and the tables in memory (registered, or loaded from an earlier path).
 # One session = 2-3 scratch directories, a history of 5-12 operations (switch the path, put a file into / take a file out of
 # a directory, register an in-memory table, load a molecule through OpacityCache()[m], clear the cache, ask for the list of
-# molecules) and a chemistry constructed after every second or third of them.  Model: Chemistry.CacheState (op c10.session).
+# molecules, declare molecules absorbing with force_active) and a chemistry constructed after every second or third of them.
+# Model: Chemistry.CacheState (op c10.session).
 SESSION_POOL = ['H2O', 'CH4', 'CO2', 'CO', 'NH3', 'HCN']
-OP_TAG = dict(setPath=0, addFile=1, removeFile=2, register=3, load=4, clear=5, ask=6, build=6)     # constructing a chemistry asks
+OP_TAG = dict(setPath=0, addFile=1, removeFile=2, register=3, load=4, clear=5, ask=6, build=6,     # constructing a chemistry asks
+              force=7)
 
 
 def write_xsec_file(directory, mol):
@@ -968,6 +972,8 @@ def enc_cache_op(op):
         t += [C.N(op[1]), C.S(op[2])]
     elif op[0] in ('register', 'load'):
         t.append(C.S(op[1]))
+    elif op[0] == 'force':
+        t.append(C.L(list(op[1]), C.S))
     return ' '.join(t)
 
 
@@ -982,6 +988,10 @@ def gen_session(rng, k):
             have[i].add(str(m))
     if k % 4 != 3:
         ops.append(['setPath', int(rng.integers(0, ndirs))])
+    # quota: every third session declares 1-2 molecules absorbing (OpacityCache().force_active, the hook for external
+    # radiative codes) before its first chemistry is constructed; the list stays in force over the path switches that follow
+    if k % 3 == 1:
+        ops.append(['force', [str(x) for x in rng.choice(SESSION_POOL, size=int(rng.integers(1, 3)), replace=False)]])
     ops.append(['build'])
     for _ in range(int(rng.integers(4, 11))):
         r = rng.random()
@@ -1001,6 +1011,8 @@ def gen_session(rng, k):
             ops.append(['clear'])
         elif r < 0.88:
             ops.append(['ask'])
+        elif r < 0.95:
+            ops.append(['force', [str(x) for x in rng.choice(SESSION_POOL, size=int(rng.integers(0, 3)), replace=False)]])
         if rng.random() < 0.45 or ops[-1][0] == 'setPath':
             ops.append(['build'])
     if ops[-1][0] != 'build':
@@ -1026,6 +1038,8 @@ def eval_session(ctx, c):
     hist = []                 # the operations so far, as the model takes them
     cur = None
     builds = 0
+    forced = []               # what the last force_active call asked for (our own copy)
+    forced_at = None          # number of path switches when it was made
     try:
         for op in c['ops']:
             kind = op[0]
@@ -1047,6 +1061,10 @@ def eval_session(ctx, c):
                     pass                                   # no file for it in the current path
             elif kind == 'clear':
                 oc.clear_cache()
+            elif kind == 'force':
+                forced = [str(m) for m in op[1]]
+                forced_at = sum(1 for o in hist if o[0] == 'setPath')
+                oc.force_active(list(forced))              # the cache keeps the list object it is handed
             hist.append(op)
             ctx.bucket('session-op:' + kind)
             if kind not in ('build', 'ask'):
@@ -1055,9 +1073,9 @@ def eval_session(ctx, c):
             d = ctx.model().call('c10.session', C.N(int(c['ndirs'])), C.L(hist, enc_cache_op))
             avail_m = sorted(set(d.list(d.str)))
             # the property's own notion, read off the session as it is now: a cross-section file in the directory the path
-            # points to, or a table in memory
+            # points to, a table in memory, or a molecule of the list last handed to force_active
             on_disk = set() if cur is None else {f.split('.')[0] for f in os.listdir(dirs[cur]) if f.endswith('.pickle')}
-            avail_now = sorted(on_disk | set(oc.opacity_dict.keys()))
+            avail_now = sorted(on_disk | set(oc.opacity_dict.keys()) | set(forced))
             if kind == 'ask':
                 ctx.check_eq('find_list_of_molecules() vs Chemistry.CacheState.molecules', sorted(oc.find_list_of_molecules()),
                              avail_m, small)
@@ -1078,14 +1096,20 @@ def eval_session(ctx, c):
             ctx.case(key=('session', switched, len(exp_a), cur is None), bucket='session:chemistry-built',
                      sample=dict(history=len(hist), path_switches=switched, active=exp_a, available=avail_now))
             ctx.bucket('session:path-switches-before-build:' + ('0' if switched == 0 else '1' if switched == 1 else '2+'))
+            if forced:
+                ctx.bucket('session:forced-active-nonempty-at-build')
+                if switched > forced_at:
+                    ctx.bucket('session:forced-active-nonempty-at-build:path-switched-since')
             if list(chem.activeGases) != exp_a or list(chem.inactiveGases) != exp_i:
                 ctx.violation('active-split:session', 'a chemistry constructed in a session whose opacity path / files / '
                               'in-memory tables changed does not split its gases by the opacity data available when it is '
                               'constructed', small,
                               dict(active=list(chem.activeGases), inactive=list(chem.inactiveGases), expected_active=exp_a,
-                                   files_in_current_path=sorted(on_disk), in_memory=sorted(oc.opacity_dict.keys())))
+                                   files_in_current_path=sorted(on_disk), in_memory=sorted(oc.opacity_dict.keys()),
+                                   forced_active=list(forced)))
                 return
     finally:
+        oc.force_active([])
         uninstall()
         GlobalCache()['xsec_path'] = None
         shutil.rmtree(root, ignore_errors=True)
